@@ -26,7 +26,7 @@ SPEC = dict(
     assumptions=["git 2.39 is the oracle for reachability of tags and commit contents",
                  "the start version of a step is computed with the rules of C09 from the tags real git lists"],
     required=["histories", "successful_updates", "histories_with_2plus_updates", "tag_checks", "commit_content_checks",
-              "failing_steps", "branch_switches", "no_commit_steps", "final_probe_ok", "allow_dirty_steps", "scope:default", "scope:global",
+              "failing_steps", "broken_file_steps", "legacy_histories", "legacy_successful_updates", "branch_switches", "no_commit_steps", "final_probe_ok", "allow_dirty_steps", "scope:default", "scope:global",
               "scope:branch"],
     anchors=[("config", "_parse_raw_config"), ("cli", "_update_cfg_from_vcs"), ("vcs", "commit"), ("cli", "_update")],
 )
@@ -51,11 +51,121 @@ def vkey(t):
 
 
 def cases(ctx):
-    for _ in range(ctx.size(480, 6000)):
-        yield {"seed": ctx.rng.getrandbits(48)}
+    for i in range(ctx.size(480, 6000)):
+        yield {"seed": ctx.rng.getrandbits(48), "legacy": i % 6 == 5}
+
+
+def run_legacy_history(ctx, case):
+    """Legacy ({..}) patterns through the same kind of history in a real git repository: successful updates, an
+    update that fails because an unrelated commit destroyed an occurrence (no effect allowed), repair, go on."""
+    R = random.Random(case["seed"])
+    mods = updates.bvmods()
+    proj, _why = projects.gen_legacy_project(R, mods, n_files=R.randint(1, 4))
+    proj.meta["cfg_extra"] = {"commit": True, "tag": True, "push": False}
+    perm = list(range(len(proj.entries)))
+    R.shuffle(perm)
+    proj = projects.reorder_entries(proj, perm, R)
+    cur0 = proj.cur_text
+    files0 = dict(proj.files)
+    if vkey(cur0) is None or any(t.count(cur0) != sum(1 for pl in proj.plants if pl.file == fn) for fn, t in files0.items()):
+        raise harness.Skip("legacy-layout-not-usable")
+    semver = "semver" in proj.vp or "MAJOR" in proj.vp
+    d = harness.new_project(dict(proj.encoded(), **{"other.txt": b"unrelated\n"}))
+    env = dict(GIT_ENV, HOME=d)
+    kinds = []
+    try:
+        git(d, "init", "-q", "-b", "main")
+        git(d, "add", "-A")
+        git(d, "commit", "-q", "-m", "init")
+        ctx.count("legacy_histories")
+        cur = cur0
+        date = dt.date(2100, 1, 1)
+        n_ok = 0
+        for step in range(R.randint(2, 7)):
+            kind = "broken-file" if R.random() < 0.35 and len(proj.files) > 1 else "update"
+            kinds.append(kind)
+            date += dt.timedelta(R.choice([0, 1, 40]))
+            args = ["update", "--no-fetch", "--date", date.isoformat()] + ([R.choice(["--patch", "--minor"])] if semver else [])
+            desc = {"steps": list(kinds), "pattern": proj.vp, "version_now": cur, "entries": proj.entries, "argv": args}
+            tags0 = sorted(git(d, "tag").split())
+            n0 = int(git(d, "rev-list", "--count", "HEAD"))
+            if kind == "broken-file":
+                victim = R.choice([fn for fn in proj.files if fn != proj.cfg_name])
+                path = os.path.join(d, victim)
+                good = open(path, encoding="utf-8", newline="").read()
+                with open(path, "w", encoding="utf-8", newline="") as f:
+                    f.write(good.replace(cur, "~" * len(cur), 1) if R.random() < 0.5 else good.replace(cur, "~" * len(cur)))
+                git(d, "commit", "-q", "-am", "unrelated commit that destroys an occurrence")
+                n0 += 1
+                before = harness.snapshot(d)
+                res = harness.invoke(args, cwd=d, env=env)
+                after = harness.snapshot(d)
+                ctx.count("broken_file_steps")
+                if res.exit_code == 0 or after != before or int(git(d, "rev-list", "--count", "HEAD")) != n0 \
+                        or sorted(git(d, "tag").split()) != tags0:
+                    ctx.violation("other:failing_invocation_had_effects", f"legacy {args} with a destroyed occurrence in "
+                                  f"{victim}: exit {res.exit_code}, changed {harness.diff_snapshots(before, after)}",
+                                  case=case, observed=desc)
+                    return
+                with open(path, "w", encoding="utf-8", newline="") as f:
+                    f.write(good)
+                git(d, "commit", "-q", "-am", "repair")
+                continue
+            before = harness.snapshot(d)
+            res = harness.invoke(args, cwd=d, env=env)
+            after = harness.snapshot(d)
+            n1 = int(git(d, "rev-list", "--count", "HEAD"))
+            tags1 = sorted(git(d, "tag").split())
+            if res.exit_code != 0:
+                if after != before or n1 != n0 or tags1 != tags0:
+                    ctx.violation("other:failed_update_had_effects", f"legacy {args}: exit {res.exit_code}, changed "
+                                  f"{harness.diff_snapshots(before, after)}", case=case, observed=desc)
+                    return
+                ctx.count("legacy_update_refused")   # e.g. same date, nothing to increment
+                continue
+            a = res.record_value("New Version: ")
+            n_ok += 1
+            ctx.count("legacy_successful_updates")
+            if vkey(a) is None or not vkey(a) > vkey(cur):
+                ctx.violation("other:new_version_not_greater", f"legacy {args}: {a!r} vs {cur!r}", case=case, observed=desc)
+                return
+            for fn, t0 in files0.items():
+                if after[fn] != t0.replace(cur0, a).encode("utf-8"):
+                    ctx.violation("other:stale-or-wrong-occurrence", f"legacy step {step} {args}: {fn} is "
+                                  f"{after[fn][:200]!r}, expected every occurrence to show {a!r}", case=case, observed=desc)
+                    return
+            s = harness.invoke(["show", "--no-fetch"], cwd=d, env=env)
+            if s.exit_code != 0 or s.stdout_value("Current Version: ") != a:
+                ctx.violation("other:show_disagrees", f"legacy: after {args}: show says "
+                              f"{s.stdout_value('Current Version: ')!r}, announced {a!r}", case=case, observed=desc)
+            at_head = git(d, "tag", "--points-at", "HEAD").split()
+            if n1 != n0 + 1 or at_head != [a] or git(d, "status", "--porcelain").strip():
+                ctx.violation("other:tag_missing_or_wrong", f"legacy {args}: commits {n0}->{n1}, tags at HEAD {at_head}, "
+                              f"announced {a!r}, status {git(d, 'status', '--porcelain').strip()!r}", case=case, observed=desc)
+                return
+            shown_files = sorted(x for x in git(d, "show", "--name-only", "--format=", "HEAD").splitlines() if x)
+            if not set(shown_files) <= set(proj.file_patterns) or not shown_files:
+                ctx.violation("other:commit_contains_unconfigured_files", f"legacy: {shown_files}", case=case, observed=desc)
+            cur = a
+        if n_ok:
+            # final probe: a further update (a year later) is possible
+            pargs = ["update", "--dry", "--no-fetch", "--date", (date + dt.timedelta(400)).isoformat()] + (["--patch"] if semver else [])
+            res = harness.invoke(pargs, cwd=d, env=env)
+            if res.exit_code == 0:
+                ctx.count("legacy_final_probe_ok")
+            elif not (res.crash or "").startswith("OverflowError"):
+                ctx.violation("other:no_further_update_possible", f"legacy {pargs} after {n_ok} successful updates: exit "
+                              f"{res.exit_code} {res.errors()[-2:]} {res.crash or ''}", case=case,
+                              observed={"steps": list(kinds), "pattern": proj.vp, "version_now": cur})
+        ctx.evaluated(("legacy", proj.vp, tuple(kinds)) if n_ok >= 2 else None,
+                      sample={"pattern": proj.vp, "steps": kinds, "final_version": cur})
+    finally:
+        harness.rm_dir(d)
 
 
 def run_case(ctx, case):
+    if case.get("legacy"):
+        return run_legacy_history(ctx, case)
     R = random.Random(case["seed"])
     mods = updates.bvmods()
     tdy = updates.today()
@@ -100,8 +210,10 @@ def run_case(ctx, case):
             r = R.random()
             if pending_uncommitted:
                 kind = R.choice(["manual-commit", "manual-commit", "update", "no-commit"])
-            elif r < 0.5:
+            elif r < 0.45:
                 kind = "update"
+            elif r < 0.5:
+                kind = "broken-file"
             elif r < 0.6:
                 kind = "failing"
             elif r < 0.7 and scope == "default":
@@ -195,6 +307,36 @@ def run_case(ctx, case):
             elif kind == "no-tag":
                 extra = ["--no-tag-commit"]
             args = updates.update_args(fl, date) + extra
+            if kind == "broken-file":
+                # an unrelated commit destroyed every occurrence of one configured pattern in one file: the update has
+                # to fail without any effect, and after the repair the history goes on
+                cands = [pl for pl in proj.plants if pl.file != proj.cfg_name]
+                if exp is None or not cands:
+                    continue
+                victim = R.choice(cands)
+                t = good = proj.files[victim.file]
+                for pl in proj.plants:
+                    if pl.file == victim.file and pl.raw == victim.raw:
+                        t = t[:pl.start] + "~" * (pl.end - pl.start) + t[pl.end:]
+                path = os.path.join(d, victim.file)
+                with open(path, "w", encoding="utf-8", newline="") as f:
+                    f.write(t)
+                git(d, "commit", "-q", "-am", "unrelated commit that destroys an occurrence")
+                n_before += 1
+                before = harness.snapshot(d)
+                res = harness.invoke(args, cwd=d, env=env)
+                after = harness.snapshot(d)
+                ctx.count("broken_file_steps")
+                if res.exit_code == 0 or after != before or int(git(d, "rev-list", "--count", "HEAD")) != n_before \
+                        or sorted(git(d, "tag").split()) != sorted(all_tags):
+                    ctx.violation("other:failing_invocation_had_effects", f"{args} with the occurrences of {victim.raw!r} "
+                                  f"in {victim.file} destroyed: exit {res.exit_code}, changed "
+                                  f"{harness.diff_snapshots(before, after)}", case=case, observed=hist(kinds, proj))
+                    return
+                with open(path, "w", encoding="utf-8", newline="") as f:
+                    f.write(good)
+                git(d, "commit", "-q", "-am", "repair")
+                continue
             res = harness.invoke(args, cwd=d, env=env)
             after = harness.snapshot(d)
             n_after = int(git(d, "rev-list", "--count", "HEAD"))
